@@ -192,6 +192,8 @@ def specAll (vs : Array PV) (o : ObsM) : List (String × String) := Id.run do
             then "eq-ord-signed-zero"
           else "eq-ord"
         acc := note acc sig s!"{i}.{j}.{j}"
+      if !lawOrdIdent (o.c i j) (same a b) then acc := note acc "ord-equal-not-identical" s!"{i}.{j}.{j}"
+      if !lawOrdHash (o.c i j) (o.h i j) then acc := note acc "ord-equal-hash-differs" s!"{i}.{j}.{j}"
       if !lawEqHash (o.e i j) (o.h i j) then
         let sig :=
           if same (normZero a) (normZero b) && !same a b then "eq-hash-signed-zero" else "eq-hash"
